@@ -288,12 +288,16 @@ class SFTPFile(BufferedFile):
         """
         self.flush()
         if whence == self.SEEK_SET:
-            self._realpos = self._pos = offset
+            target = offset
         elif whence == self.SEEK_CUR:
-            self._pos += offset
-            self._realpos = self._pos
+            target = self._pos + offset
         else:
-            self._realpos = self._pos = self._get_size() + offset
+            target = self._get_size() + offset
+        if target < 0:
+            # as for a local file; a negative offset would otherwise be
+            # sent to the server as a huge unsigned one
+            raise IOError("Invalid argument: seek before start of file")
+        self._realpos = self._pos = target
         self._rbuffer = bytes()
 
     def stat(self):
